@@ -26,7 +26,11 @@ LEVEL = "proof"
 THEOREMS = "Props/C05.v"
 EXTRA_TARGETS = ("PBC/Check.vo",)
 EXTS = ["_geometry"]
-RULE = ("[cell series: one of the six box components changes per frame, tilt-only stretches with a frozen diagonal, "
+RULE = ("[deepening axes: GLUE stream = every API function x invalid / boundary / empty index lists and cell arrays of the wrong "
+        "length (error class and shape against coq/PBC/Kernel.v api_call); CALL HISTORIES = chains of 4 steps in one process on one "
+        "Trajectory object and one cell ndarray refilled in place, cell kind alternating; MIXED-KIND trajectories (rectangular first "
+        "frame then sheared, and the reverse); unit-cell round trip read back on every case] "
+        "[cell series: one of the six box components changes per frame, tilt-only stretches with a frozen diagonal, "
         "repeated cells] [cell kinds: 9 named shapes + all 8 zero/non-zero patterns of (b_x, c_x, c_y) + rotated cells for "
         "compute_distances_core; every case contains (i,i), coincident-atom and exact-periodic-image pairs; "
         "compute_distances_t gets every ordered frame pair, find_closest_contact every frame with possibly overlapping "
@@ -39,7 +43,9 @@ TRUSTED = ["harness/impl/pbc_impl.py (builds the Trajectory through the public A
            "kernels see, returns raw float32 bit patterns)",
            "harness/props/C05.py: generator, float->integer scaling, tolerance formulas, the brute-force oracle; "
            "model-vs-implementation comparison is done by vm_compute inside coqc (coq/PBC/Check.v)",
-           "translator harness/props/C05.py:translate (regex/ast over the named blocks; unparseable source = degraded)"]
+           "translator harness/props/C05.py:translate (regex/ast over the named blocks; unparseable source = degraded)",
+           "translator harness/props/C05_loops.py (loop skeletons, offsets, pointer advances, glue control flow by regex / brace "
+           "matching / ast: the extracted data is compared with coq/PBC/Kernel.v, the extraction itself is trusted)"]
 ASSUMPTIONS = [
     "float32 rounding inside the kernels is not modelled: distances are compared with the exact value under "
     "tol = 2^-20*M + 2^-21*d (M = 2*(max|coordinate| + max|cell entry|)); when all coordinates and cell entries lie "
@@ -345,16 +351,35 @@ def _translate_py(src):
 REFERENCE = os.path.join(COQ, "PBC", "PBCFormulas.reference")
 
 
+LOOPS_REFERENCE = os.path.join(COQ, "PBC", "PBCLoops.reference")
+LOOPS_HEADER = ("(* GENERATED by harness/props/C05_loops.py from %s, %s, %s -- do not edit. *)" % (GEOM, KERN, DIST))
+
+
 def translate(ctx):
-    """Regenerate Gen/PBCFormulas.v.  If a block is outside the accepted grammar the hand-kept reference copy
-    (= the text generated from the pinned tree) stands in, so that a stale file from another tree state can
-    never be what the proofs see; the run is then 'degraded' (correspondence alone ties the model)."""
+    """Regenerate Gen/PBCFormulas.v (straight-line arithmetic) and Gen/PBCLoops.v (loop skeletons, index arithmetic,
+    pointer advances, control flow of the Python glue).  If a block is outside the accepted grammar the hand-kept
+    reference copy (= the text generated from the pinned tree) stands in, so that a stale file from another tree
+    state can never be what the proofs see; the run is then 'degraded' (correspondence alone ties the model)."""
+    err = None
     try:
         _translate(ctx)
-    except Exception:
+    except Exception as e:
         with open(REFERENCE) as fh:
             ctx.write_gen("Gen/PBCFormulas.v", fh.read())
-        raise
+        err = e
+    try:
+        import props.C05_loops as loops
+        text = loops.generate(open(os.path.join(REPO, GEOM)).read(), open(os.path.join(REPO, KERN)).read(),
+                              open(os.path.join(REPO, DIST)).read(), LOOPS_HEADER)
+        ctx.write_gen("Gen/PBCLoops.v", text)
+        ctx.notes["translator_loops"] = "ok"
+    except Exception as e:
+        with open(LOOPS_REFERENCE) as fh:
+            ctx.write_gen("Gen/PBCLoops.v", fh.read())
+        ctx.notes["translator_loops"] = "degraded: %s" % e
+        err = err or e
+    if err is not None:
+        raise err
 
 
 def _translate(ctx):
@@ -553,6 +578,10 @@ def gen_cell_series(rng):
 
 
 def _gen_case(rng, kind, tier):
+    frame_kinds = None
+    if isinstance(kind, (list, tuple)):
+        # the cell KIND changes from frame to frame (e.g. exactly orthorhombic first, sheared later, or the reverse)
+        frame_kinds, kind = list(kind), "mixed"
     series = kind == "series"
     n_frames = rng.choice([1, 2, 3])
     n_atoms = rng.randint(2, 7) if not series else rng.randint(2, 4)
@@ -564,9 +593,12 @@ def _gen_case(rng, kind, tier):
     if series:
         cells = gen_cell_series(rng)
         n_frames = len(cells)
+    elif frame_kinds:
+        cells = [gen_cell(rng, k) for k in frame_kinds]
+        n_frames, perframe, spread = len(cells), True, rng.choice([1, 3, 20])
     else:
         base = gen_cell(rng, kind)
-    for f in range(n_frames if not series else 0):
+    for f in range(n_frames if not (series or frame_kinds) else 0):
         if perframe and f > 0:
             k2 = kind if rng.random() < 0.6 else rng.choice(CELL_KINDS + ZERO_KINDS)
             c = gen_cell(rng, k2)
@@ -687,7 +719,48 @@ def build_cases(ctx):
     # cells under deformation: one component changes per frame (see gen_cell_series)
     for _ in range(3 if ctx.tier == "quick" else 40):
         cases.append(gen_case(rng, "series", ctx.tier))
+    # the cell KIND changes between frames: exactly orthorhombic first and sheared later, the reverse, and a
+    # rectangular frame in the middle (whatever is decided from one frame only, or once per call, shows here)
+    for rep in range(1 if ctx.tier == "quick" else 12):
+        for kinds in (["ortho", "triclinic"], ["cubic", "zeros%d" % rng.randint(1, 7), "ortho"],
+                      ["triclinic", "ortho"], ["monoclinic", "cubic", "triclinic"]):
+            cases.append(gen_case(rng, kinds, ctx.tier))
     return cases
+
+
+def gen_chain(rng, chain_id, tier):
+    """A CALL HISTORY: steps of one process that share one Trajectory object and one cell array object; between
+    the steps the cell array is refilled in place (same identity, same shape) and the Trajectory's
+    unitcell_vectors are re-assigned; the cell kind changes from step to step (sheared <-> rectangular).  Every
+    step's answer must be right for the cell of THAT step."""
+    first_ortho = rng.random() < 0.5
+    seqs = [["ortho", "triclinic", "cubic", "zeros%d" % rng.randint(1, 7)],
+            ["triclinic", "ortho", "monoclinic", "triclinic"]]
+    kinds = seqs[0] if first_ortho else seqs[1]
+    steps = []
+    base = None
+    while base is None or base["box"] is None or len(base["xyz"]) > 2:
+        base = gen_case(rng, kinds[0], tier)
+    base["calls"] = [cl for cl in base["calls"] if cl["api"] != "fcc"]
+    n_frames = len(base["xyz"])
+    for k, kind in enumerate(kinds):
+        if k == 0:
+            st = base
+        else:
+            st = json.loads(json.dumps(base))
+            cells = [gen_cell(rng, kind) for _ in range(n_frames)]
+            if rng.random() < 0.5:
+                cells = [cells[0]] * n_frames
+            st["box"] = [[[v / U for v in row] for row in c] for c in cells]
+            st["raw_box"] = [[[v / U for v in row] for row in unreduce(rng, c, big=False)] for c in cells] \
+                if rng.random() < 0.4 else st["box"]
+        st["kind"] = "history"
+        st["chain"] = chain_id
+        st["chain_step"] = k
+        st["chain_prefix"] = [{kk: p[kk] for kk in ("kind", "unreduced", "perframe", "spread", "special", "grid", "xyz",
+                                                      "box", "raw_box", "calls", "chain", "chain_step")} for p in steps]
+        steps.append(st)
+    return steps
 
 
 # =============================================================================================
@@ -822,20 +895,19 @@ def tol_abs(M, d):
     return M * 2.0 ** -20 + d * 2.0 ** -21
 
 
-def run_coq(ctx, defs_by_case, exprs):
+def run_coq(ctx, defs_by_case, exprs, requires="MD.PBC.Model MD.PBC.Check", shard=60):
     """Evaluate the verdict expressions by vm_compute; returns list (per expr) of flat lists of ints."""
-    shard = 60
     jobs = []
     for s0 in range(0, len(exprs), shard):
         lines = ["From Coq Require Import ZArith List Bool.", "Import ListNotations.",
-                 "Require Import MD.PBC.Model MD.PBC.Check.", "Open Scope Z_scope."]
+                 "Require Import %s." % requires, "Open Scope Z_scope."]
         used = sorted({e[0] for e in exprs[s0:s0 + shard]})
         for ci in used:
             lines += defs_by_case[ci]
         for k, (_ci, text) in enumerate(exprs[s0:s0 + shard]):
             lines.append("Definition v%d : list Z := %s." % (k, text))
         lines.append("Eval vm_compute in %s." % clist(["v%d" % k for k in range(len(exprs[s0:s0 + shard]))]))
-        p = os.path.join(ctx.tmp, "pbc_%d.v" % s0)
+        p = os.path.join(ctx.tmp, "pbc_%d_%d.v" % (len(os.listdir(ctx.tmp)), s0))
         with open(p, "w") as fh:
             fh.write("\n".join(lines) + "\n")
         jobs.append((s0, p))
@@ -864,12 +936,35 @@ def run_coq(ctx, defs_by_case, exprs):
     return results
 
 
+def unitcell_roundtrip_check(ctx, c, seen, stats):
+    """mdtraj/utils/unitcell.py as the distance code uses it: Trajectory.unitcell_vectors (vectors -> lengths/angles ->
+    vectors) must hand the kernels a cell in STANDARD ORIENTATION (a along x, b in the xy plane, positive diagonal:
+    the hypothesis lower_tri_pos of the theorems) that is congruent to the one assigned (same Gram matrix, float32)."""
+    for f, (given, got) in enumerate(zip(c["box"], seen)):
+        g = [[got[3 * i + j] for j in range(3)] for i in range(3)]
+        stats["unitcell_roundtrips"] = stats.get("unitcell_roundtrips", 0) + 1
+        std = g[0][1] == 0 and g[0][2] == 0 and g[1][2] == 0 and g[0][0] > 0 and g[1][1] > 0 and g[2][2] > 0
+        scale = max(abs(x) for row in given for x in row) ** 2
+        gram_ok = all(abs(sum(g[i][k] * g[j][k] for k in range(3)) - sum(given[i][k] * given[j][k] for k in range(3)))
+                      <= 2e-5 * scale for i in range(3) for j in range(3))
+        # orthorhombic input must come back EXACTLY orthorhombic (the dispatch tests for exact zeros)
+        ortho_in = all(given[i][j] == 0 for i in range(3) for j in range(3) if i != j)
+        ortho_out = all(g[i][j] == 0 for i in range(3) for j in range(3) if i != j)
+        if not std or not gram_ok or (ortho_in and not ortho_out):
+            d = {k: c[k] for k in ("kind", "unreduced", "perframe", "spread", "special", "grid", "xyz", "box", "raw_box")}
+            d["calls"] = []
+            ctx.fail("Trajectory.unitcell_vectors does not return the assigned cell in standard orientation "
+                     "(lower triangular, positive diagonal, same lengths and angles)", d, observed=g, expected=given,
+                     tags={"api": "unitcell_vectors", "kind": "unitcell_roundtrip", "frame": f, "standard": std, "gram": gram_ok})
+            return
+
+
 def case_id(c):
     return {k: c[k] for k in ("kind", "unreduced", "perframe", "spread", "special")}
 
 
 def run_cases(ctx, cases, oracle_only=False):
-    res = ctx.run_impl("pbc_impl.py", {"cases": [{"xyz": c["xyz"], "grid": c["grid"], "box": c["box"],
+    res = ctx.run_impl("pbc_impl.py", {"cases": [{"xyz": c["xyz"], "grid": c["grid"], "box": c["box"], "chain": c.get("chain"),
                                                   "calls": [dict(cl, **({"box": None})) for cl in c["calls"]]}
                                                  for c in cases]})["cases"]
     # core_raw needs the raw cell: run those as separate mini-cases (cell handed over directly)
@@ -877,6 +972,7 @@ def run_cases(ctx, cases, oracle_only=False):
     raw_res = {}
     if raw_idx:
         rr = ctx.run_impl("pbc_impl.py", {"cases": [{"xyz": cases[i]["xyz"], "grid": cases[i]["grid"], "box": cases[i]["raw_box"],
+                                                     "chain": cases[i].get("chain"),
                                                      "calls": [cl for cl in cases[i]["calls"] if cl["api"] == "core_raw"]}
                                                     for i in raw_idx]})["cases"]
         for i, r in zip(raw_idx, rr):
@@ -890,6 +986,8 @@ def run_cases(ctx, cases, oracle_only=False):
         grid_vals = [Fraction(1, 1 << c["grid"])]
         seen = r["box_seen"]
         raw = c.get("raw_box")
+        if seen is not None and c["box"] is not None:
+            unitcell_roundtrip_check(ctx, c, seen, stats)
         vals = list(grid_vals)
         if seen is not None:
             vals += [x for f in seen for x in f]
@@ -1163,6 +1261,9 @@ def replay_case(c, li):
     if c.get("force_ortho"):
         d["force_ortho"] = True
     d["calls"] = [c["calls"][i] for i in (li if isinstance(li, (list, tuple)) else [li])]
+    if c.get("chain") is not None:
+        # a step of a call history: the replay re-runs the earlier steps (with all their calls) in the same process
+        d["chain"], d["chain_step"], d["chain_prefix"] = c["chain"], c.get("chain_step"), c.get("chain_prefix", [])
     return d
 
 
@@ -1300,12 +1401,137 @@ def oracle_check(ctx, c, info, stats):
                      "below half the smallest cell width", d, mn / K, kind="not_minimal")
 
 
+
+
+# =============================================================================================
+# the Python glue: validation, empty lists, cell-array shape  (model: coq/PBC/Kernel.v api_call)
+GLUE_FN = {"core": "ApiDistancesCore", "dist": "ApiDistancesCore", "disp": "ApiDisplacements", "dist_t": "ApiDistancesT"}
+
+
+def glue_cases(rng, tier):
+    n_atoms, n_frames = 4, 3
+    cases = []
+    configs = [None, "ortho", "mixed"]
+    for cfg in configs:
+        if cfg is None:
+            cells = None
+        elif cfg == "ortho":
+            cells = [gen_cell(rng, "ortho")] * n_frames
+        else:
+            cells = [gen_cell(rng, k) for k in ("triclinic", "ortho", "monoclinic")]
+        ref = cells[0] if cells else gen_cell(rng, "cubic")
+        xyz = [gen_positions(rng, ref, n_atoms, 2, False) for _ in range(n_frames)]
+        box = None if cells is None else [[[v / U for v in row] for row in c] for c in cells]
+        bad_pairs = [[[0, n_atoms]], [[n_atoms, 0]], [[-1, 1]], [[1, -1]], [[0, 1], [2, n_atoms + 1]], [[0, 1], [-3, 2]],
+                     [[n_atoms - 1, n_atoms - 1], [0, -n_atoms]]]
+        ok_pairs = [[[0, 1], [n_atoms - 1, n_atoms - 1]], [[n_atoms - 1, 0]], []]
+        ok_times = [[[0, n_frames - 1], [1, 1]], [[n_frames - 1, 0]], []]
+        bad_times = [[[0, n_frames]], [[-1, 0]], [[n_frames, 0], [0, 0]], [[1, 1], [1, -2]]]
+        calls = []
+
+        def add(fn, pairs, times=None, cbox="same", opt=None, periodic=None):
+            a = {"fn": fn, "pairs": pairs}
+            if times is not None:
+                a["times"] = times
+            if fn == "core":
+                a["box"] = box if cbox == "same" else cbox
+            calls.append({"api": "glue", "opt": rng.random() < 0.5 if opt is None else opt,
+                          "periodic": rng.random() < 0.7 if periodic is None else periodic, "call_args": a})
+        for fn in ("core", "dist", "disp"):
+            for ps in bad_pairs + ok_pairs:
+                add(fn, ps)
+        for ps in bad_pairs + ok_pairs:
+            add("dist_t", ps, times=rng.choice(ok_times[:2]))
+        for ts in bad_times + ok_times:
+            for ps in (ok_pairs[0], [], bad_pairs[2]):
+                add("dist_t", ps, times=ts)
+        if box is not None:
+            # compute_distances_core handed a cell array whose length is not the number of frames
+            for wrong in (box + [box[0]], box[:-1], box[:1]):
+                for ps in (ok_pairs[0], [], bad_pairs[0]):
+                    for periodic in (True, False):
+                        add("core", ps, cbox=wrong, periodic=periodic)
+        cases.append({"glue": True, "kind": "glue", "unreduced": False, "perframe": cfg == "mixed", "spread": 2,
+                      "special": False, "grid": GRID, "xyz": xyz, "box": box, "raw_box": None, "calls": calls})
+    return cases
+
+
+def zpairs(ps):
+    return clist(["(%s, %s)" % (("(%d)" % a) if a < 0 else a, ("(%d)" % b) if b < 0 else b) for a, b in ps])
+
+
+def run_glue(ctx, cases=None):
+    cases = cases if cases is not None else glue_cases(ctx.rng, ctx.tier)
+    res = ctx.run_impl("pbc_impl.py", {"cases": [{"xyz": c["xyz"], "grid": c["grid"], "box": c["box"], "calls": c["calls"]}
+                                                 for c in cases]})["cases"]
+    defs, exprs, meta = {}, [], []
+    for ci, (c, r) in enumerate(zip(cases, res)):
+        seen = r["box_seen"]
+        vals = [Fraction(1, 1 << c["grid"])] + ([x for f in seen for x in f] if seen is not None else [])
+        K = common_unit(vals)
+        sx = K >> c["grid"]
+        xyzK = [[[x * sx for x in a] for a in f] for f in c["xyz"]]
+        defs[ci] = ["Definition gxyz_%d : list frame := %s." % (ci, clist([clist([zv(a) for a in f]) for f in xyzK]))]
+        n_atoms = len(c["xyz"][0])
+        for li, (call, out) in enumerate(zip(c["calls"], r["results"])):
+            a = call["call_args"]
+            if a["fn"] == "core":
+                bx = a.get("box")
+                boxes = None if bx is None else [[[int(Fraction(float(x)) * K) for x in row] for row in f] for f in bx]
+            else:
+                boxes = None if seen is None else [[[int(Fraction(float(f[3 * i + j])) * K) for j in range(3)] for i in range(3)] for f in seen]
+            bt = "None" if boxes is None else "(Some %s)" % clist([zbox(b) for b in boxes])
+            exprs.append((ci, "match api_call %s %s %s %d gxyz_%d %s %s %s with Err _ => [-1] | Ok sh _ => sh end" % (
+                GLUE_FN[a["fn"]], cb(call["opt"]), cb(call["periodic"]), n_atoms, ci, bt, zpairs(a["pairs"]),
+                zpairs(a.get("times", [])))))
+            meta.append((ci, li, call, out))
+    try:
+        verdicts = run_coq(ctx, defs, exprs, requires="MD.PBC.Model MD.PBC.Kernel", shard=120)
+    except RuntimeError as e:
+        ctx.break_("correspondence:coqc-evaluation", str(e))
+        return
+    for (ci, li, call, out), model in zip(meta, verdicts):
+        c = cases[ci]
+        a = call["call_args"]
+        rc = {k: c[k] for k in ("glue", "kind", "unreduced", "perframe", "spread", "special", "grid", "xyz", "box", "raw_box")}
+        rc["calls"] = [call]
+        tags = {"api": "glue:" + a["fn"], "opt": call["opt"], "periodic": call["periodic"]}
+        model_err = model == [-1]
+        ctx.count({"glue": a, "opt": call["opt"], "periodic": call["periodic"], "cell": c["box"] is not None and c["perframe"],
+                   "x": c["xyz"][0][0]}, nontrivial=True,
+                  bucket="glue/%s/%s" % (a["fn"], "refused" if model_err else ("empty" if not a["pairs"] else "accepted")))
+        if "err" in out:
+            if not model_err:
+                ctx.fail("%s raised %s on valid input" % (a["fn"], out["err"]), rc, observed=out, expected={"shape": model},
+                         tags=dict(tags, kind="raises"))
+            elif out["err"] != "ValueError":
+                ctx.break_("correspondence:glue-error-class", "%s raised %s where the model has ValueError: %s" % (
+                    a["fn"], out["err"], json.dumps(call)))
+        elif model_err:
+            ctx.fail("an index outside the valid range, or a cell array whose length is not the number of frames, is accepted: "
+                     "the value returned belongs to no atom pair of the system", rc, observed={"shape": out["shape"], "data": out["data"][:6]},
+                     expected="ValueError", tags=dict(tags, kind="invalid_accepted"))
+        elif out["shape"] != model:
+            ctx.fail("%s: result has shape %s, expected %s" % (a["fn"], out["shape"], model), rc, observed=out["shape"], expected=model,
+                     tags=dict(tags, kind="shape", empty_pairs=len(a["pairs"]) == 0))
+
+
 def correspond(ctx):
     cases = build_cases(ctx)
     ctx.log("cases:", len(cases))
     B = 40
     for i in range(0, len(cases), B):
         run_cases(ctx, cases[i:i + B])
+    ctx.log("stream done")
+    # call histories (one process, shared Trajectory and cell array objects)
+    chains = []
+    for k in range(3 if ctx.tier == "quick" else 30):
+        chains += gen_chain(ctx.rng, k, ctx.tier)
+    run_cases(ctx, chains)
+    ctx.log("histories done")
+    ctx.notes.setdefault("coverage_extra", {}).setdefault("c05", {})["history_steps"] = len(chains)
+    # argument validation, empty lists, cell-array shape: the Python glue against PBC/Kernel.v:api_call
+    run_glue(ctx)
     ctx.log("stats:", ctx.notes.get("coverage_extra", {}).get("c05"))
 
 
@@ -1320,4 +1546,8 @@ def search(ctx, broken):
 
 
 def replay(ctx, rec):
-    run_cases(ctx, [rec["case"]])
+    c = rec["case"]
+    if c.get("glue"):
+        run_glue(ctx, [c])
+        return
+    run_cases(ctx, list(c.get("chain_prefix", [])) + [c])
